@@ -1,12 +1,16 @@
 use crate::core::*;
 
 pub mod c13;
+pub mod c14;
+pub mod c20;
 
-pub const ALL: &[&str] = &["C13"];
+pub const ALL: &[&str] = &["C13", "C14", "C20"];
 
 pub fn run(prop: &str, rep: &Report) -> bool {
     match prop {
         "C13" => c13::run(rep),
+        "C14" => c14::run(rep),
+        "C20" => c20::run(rep),
         _ => return false,
     }
     true
@@ -16,6 +20,8 @@ pub fn run(prop: &str, rep: &Report) -> bool {
 pub fn replay(prop: &str, rep: &Report, case: &serde_json::Value) -> Option<Check> {
     match prop {
         "C13" => c13::replay(rep, case),
+        "C14" => c14::replay(rep, case),
+        "C20" => c20::replay(rep, case),
         _ => None,
     }
 }
